@@ -36,7 +36,12 @@ func TestGovcReplayScanEmptyArrayReply(t *testing.T) {
 
 func init() {
 	replayGens["redis.(*upstream).handleRedirection"] = replayRedirectionShort
-	replayGens["redis.parseClusterNodes"] = replayClusterNodesNilMaster
+	replayGens["redis.parseClusterNodes"] = func(rc *ReplayCtx) (string, string, string, bool) {
+		if strings.Contains(rc.o.Name, "only-a-refusable-line") {
+			return replayClusterNodesSlotlessMaster(rc)
+		}
+		return replayClusterNodesNilMaster(rc)
+	}
 	replayGens["redis.parseClusterNodesSlot"] = replayClusterNodesSlotRange
 }
 
@@ -82,6 +87,27 @@ func TestGovcReplayClusterNodesUnknownMaster(t *testing.T) {
 }
 `
 	return "proc/redis", "TestGovcReplayClusterNodesUnknownMaster", src, true
+}
+
+// a master that owns no slot (a node just added to the cluster, or one whose slots were all moved away)
+func replayClusterNodesSlotlessMaster(rc *ReplayCtx) (string, string, string, bool) {
+	src := `package redis
+
+import "testing"
+
+func TestGovcReplayClusterNodesSlotlessMaster(t *testing.T) {
+	reply := "aaaa 127.0.0.1:7001@17001 master - 0 0 1 connected 0-16383\n" +
+		"bbbb 127.0.0.1:7002@17002 master - 0 0 2 connected\n"
+	insts, err := parseClusterNodes(reply)
+	if err != nil {
+		t.Fatalf("REPLAY-VIOLATION a CLUSTER NODES reply that lists a master without slots (every line has its eight fields and a host:port address) is refused as a whole: %v; every slots refresh fails while such a node is in the cluster, so routing never follows a changed layout", err)
+	}
+	if insts["aaaa"] == nil || len(insts["aaaa"].Slots) != 16384 {
+		t.Fatalf("REPLAY-VIOLATION the slots of the other master were lost")
+	}
+}
+`
+	return "proc/redis", "TestGovcReplayClusterNodesSlotlessMaster", src, true
 }
 
 // a slot range far beyond the 16384 slots of Redis Cluster
